@@ -7,6 +7,7 @@ import ActsModel.Driver.Value
 import ActsModel.Driver.Glob
 import ActsModel.Driver.Tmo
 import ActsModel.Driver.Wf
+import ActsModel.Driver.Admit
 open Lean Acts.Driver
 
 def dispatch (req : Lean.Json) : Lean.Json :=
@@ -22,6 +23,7 @@ def dispatch (req : Lean.Json) : Lean.Json :=
   | "c19.monitor" => tmoMonitor req
   | "c19.parse" => tmoParse req
   | "c20.tree" => treeCase req
+  | "c05.admit" => admitCase req
   | "ping" => Lean.Json.mkObj [("pong", Lean.Json.bool true)]
   | c => Lean.Json.mkObj [("error", Lean.Json.str s!"unknown cmd {c}")]
 
